@@ -70,7 +70,7 @@ fn any_wf_depths() -> ContainerDepths {
 // requires align ∈ {1,2,4,8}, window has room (writer position <= 8 in a 16-byte window; padding <= 7)
 // ensures  Ok(p) with p = pad(position + bytes_written, align); exactly p zero bytes written at the writer
 //          position; bytes_written' = bytes_written + p; writer advanced by p; NO OTHER BYTE CHANGED
-// @unit C01.add_padding props=C01,C02 kind=complete fn=zvariant::ser::SerializerCommon::add_padding,<zvariant::ser::SerializerCommon.as.std::io::Write>::write timeout=600
+// @unit C01.add_padding props=C01,C02 kind=complete fn=zvariant::ser::SerializerCommon::add_padding,<zvariant::ser::SerializerCommon.as.std::io::Write>::write timeout=1200
 #[cfg(not(verif_skip_c01_add_padding__complete))]
 #[cfg(kani)]
 #[kani::proof]
@@ -162,39 +162,39 @@ macro_rules! ser_fixed_unit {
         }
     };
 }
-// @unit C01.ser_u8 props=C01 kind=complete fn=<&mut.zvariant::dbus::Serializer.as.serde::Serializer>::serialize_u8,zvariant::ser::SerializerCommon::prep_serialize_basic timeout=600
+// @unit C01.ser_u8 props=C01 kind=complete fn=<&mut.zvariant::dbus::Serializer.as.serde::Serializer>::serialize_u8,zvariant::ser::SerializerCommon::prep_serialize_basic timeout=1200
 #[cfg(not(verif_skip_c01_ser_u8__complete))]
 ser_fixed_unit!(c01_ser_u8__complete, u8, b'y', &SIG_Y, serialize_u8, |v| v as u64,
     "C01.ser_u8.ok", "C01.ser_u8.advance", "C01.ser_u8.padding_zero", "C01.ser_u8.value_bytes", "C01.ser_u8.frame");
-// @unit C01.ser_bool props=C01 kind=complete fn=<&mut.zvariant::dbus::Serializer.as.serde::Serializer>::serialize_bool timeout=600
+// @unit C01.ser_bool props=C01 kind=complete fn=<&mut.zvariant::dbus::Serializer.as.serde::Serializer>::serialize_bool timeout=1200
 #[cfg(not(verif_skip_c01_ser_bool__complete))]
 ser_fixed_unit!(c01_ser_bool__complete, bool, b'b', <bool as Type>::SIGNATURE, serialize_bool, |v| v as u64,
     "C01.ser_bool.ok", "C01.ser_bool.advance", "C01.ser_bool.padding_zero", "C01.ser_bool.value_bytes", "C01.ser_bool.frame");
-// @unit C01.ser_i16 props=C01 kind=complete fn=<&mut.zvariant::dbus::Serializer.as.serde::Serializer>::serialize_i16 timeout=600
+// @unit C01.ser_i16 props=C01 kind=complete fn=<&mut.zvariant::dbus::Serializer.as.serde::Serializer>::serialize_i16 timeout=1200
 #[cfg(not(verif_skip_c01_ser_i16__complete))]
 ser_fixed_unit!(c01_ser_i16__complete, i16, b'n', <i16 as Type>::SIGNATURE, serialize_i16, |v| v as u16 as u64,
     "C01.ser_i16.ok", "C01.ser_i16.advance", "C01.ser_i16.padding_zero", "C01.ser_i16.value_bytes", "C01.ser_i16.frame");
-// @unit C01.ser_u16 props=C01 kind=complete fn=<&mut.zvariant::dbus::Serializer.as.serde::Serializer>::serialize_u16 timeout=600
+// @unit C01.ser_u16 props=C01 kind=complete fn=<&mut.zvariant::dbus::Serializer.as.serde::Serializer>::serialize_u16 timeout=1200
 #[cfg(not(verif_skip_c01_ser_u16__complete))]
 ser_fixed_unit!(c01_ser_u16__complete, u16, b'q', <u16 as Type>::SIGNATURE, serialize_u16, |v| v as u64,
     "C01.ser_u16.ok", "C01.ser_u16.advance", "C01.ser_u16.padding_zero", "C01.ser_u16.value_bytes", "C01.ser_u16.frame");
-// @unit C01.ser_i32 props=C01 kind=complete fn=<&mut.zvariant::dbus::Serializer.as.serde::Serializer>::serialize_i32 timeout=600
+// @unit C01.ser_i32 props=C01 kind=complete fn=<&mut.zvariant::dbus::Serializer.as.serde::Serializer>::serialize_i32 timeout=1200
 #[cfg(not(verif_skip_c01_ser_i32__complete))]
 ser_fixed_unit!(c01_ser_i32__complete, i32, b'i', &SIG_I, serialize_i32, |v| v as u32 as u64,
     "C01.ser_i32.ok", "C01.ser_i32.advance", "C01.ser_i32.padding_zero", "C01.ser_i32.value_bytes", "C01.ser_i32.frame");
-// @unit C01.ser_u32 props=C01 kind=complete fn=<&mut.zvariant::dbus::Serializer.as.serde::Serializer>::serialize_u32 timeout=600
+// @unit C01.ser_u32 props=C01 kind=complete fn=<&mut.zvariant::dbus::Serializer.as.serde::Serializer>::serialize_u32 timeout=1200
 #[cfg(not(verif_skip_c01_ser_u32__complete))]
 ser_fixed_unit!(c01_ser_u32__complete, u32, b'u', &SIG_U, serialize_u32, |v| v as u64,
     "C01.ser_u32.ok", "C01.ser_u32.advance", "C01.ser_u32.padding_zero", "C01.ser_u32.value_bytes", "C01.ser_u32.frame");
-// @unit C01.ser_i64 props=C01 kind=complete fn=<&mut.zvariant::dbus::Serializer.as.serde::Serializer>::serialize_i64 timeout=600
+// @unit C01.ser_i64 props=C01 kind=complete fn=<&mut.zvariant::dbus::Serializer.as.serde::Serializer>::serialize_i64 timeout=1200
 #[cfg(not(verif_skip_c01_ser_i64__complete))]
 ser_fixed_unit!(c01_ser_i64__complete, i64, b'x', <i64 as Type>::SIGNATURE, serialize_i64, |v| v as u64,
     "C01.ser_i64.ok", "C01.ser_i64.advance", "C01.ser_i64.padding_zero", "C01.ser_i64.value_bytes", "C01.ser_i64.frame");
-// @unit C01.ser_u64 props=C01 kind=complete fn=<&mut.zvariant::dbus::Serializer.as.serde::Serializer>::serialize_u64 timeout=600
+// @unit C01.ser_u64 props=C01 kind=complete fn=<&mut.zvariant::dbus::Serializer.as.serde::Serializer>::serialize_u64 timeout=1200
 #[cfg(not(verif_skip_c01_ser_u64__complete))]
 ser_fixed_unit!(c01_ser_u64__complete, u64, b't', &SIG_T, serialize_u64, |v| v,
     "C01.ser_u64.ok", "C01.ser_u64.advance", "C01.ser_u64.padding_zero", "C01.ser_u64.value_bytes", "C01.ser_u64.frame");
-// @unit C01.ser_f64 props=C01 kind=complete fn=<&mut.zvariant::dbus::Serializer.as.serde::Serializer>::serialize_f64 timeout=600
+// @unit C01.ser_f64 props=C01 kind=complete fn=<&mut.zvariant::dbus::Serializer.as.serde::Serializer>::serialize_f64 timeout=1200
 #[cfg(not(verif_skip_c01_ser_f64__complete))]
 ser_fixed_unit!(c01_ser_f64__complete, f64, b'd', <f64 as Type>::SIGNATURE, serialize_f64, |v| v.to_bits(),
     "C01.ser_f64.ok", "C01.ser_f64.advance", "C01.ser_f64.padding_zero", "C01.ser_f64.value_bytes", "C01.ser_f64.frame");
@@ -203,7 +203,7 @@ ser_fixed_unit!(c01_ser_f64__complete, f64, b'd', <f64 as Type>::SIGNATURE, seri
 // requires fewer than u32::MAX descriptors attached so far
 // ensures  the u32 written is the index of the descriptor = number attached before; number attached + 1
 //          ("the number of file descriptors reported equals the number attached")
-// @unit C01.ser_fd props=C01,C02 kind=complete fn=<&mut.zvariant::dbus::Serializer.as.serde::Serializer>::serialize_i32,zvariant::ser::SerializerCommon::add_fd timeout=600
+// @unit C01.ser_fd props=C01,C02 kind=complete fn=<&mut.zvariant::dbus::Serializer.as.serde::Serializer>::serialize_i32,zvariant::ser::SerializerCommon::add_fd timeout=1200
 #[cfg(not(verif_skip_c01_ser_fd__complete))]
 #[cfg(kani)]
 #[kani::proof]
@@ -298,15 +298,15 @@ macro_rules! ser_str_unit {
         }
     };
 }
-// @unit C01.ser_str.s props=C01,C02 kind=bounded bound=ASCII,L<=4 fn=<&mut.zvariant::dbus::Serializer.as.serde::Serializer>::serialize_str timeout=900
+// @unit C01.ser_str.s props=C01,C02 kind=bounded bound=ASCII,L<=4 fn=<&mut.zvariant::dbus::Serializer.as.serde::Serializer>::serialize_str timeout=1800
 #[cfg(not(verif_skip_c01_ser_str_s__l4))]
 ser_str_unit!(c01_ser_str_s__l4, 4, &SIG_S, 4, "C01.ser_str.s.ok", "C01.ser_str.s.advance", "C01.ser_str.s.padding_zero",
     "C01.ser_str.s.length_prefix", "C01.ser_str.s.content", "C01.ser_str.s.nul_terminator", "C01.ser_str.s.frame");
-// @unit C01.ser_str.g props=C01,C02 kind=bounded bound=ASCII,L<=4 fn=<&mut.zvariant::dbus::Serializer.as.serde::Serializer>::serialize_str timeout=900
+// @unit C01.ser_str.g props=C01,C02 kind=bounded bound=ASCII,L<=4 fn=<&mut.zvariant::dbus::Serializer.as.serde::Serializer>::serialize_str timeout=1800
 #[cfg(not(verif_skip_c01_ser_str_g__l4))]
 ser_str_unit!(c01_ser_str_g__l4, 4, &SIG_G, 1, "C01.ser_str.g.ok", "C01.ser_str.g.advance", "C01.ser_str.g.padding_zero",
     "C01.ser_str.g.length_prefix", "C01.ser_str.g.content", "C01.ser_str.g.nul_terminator", "C01.ser_str.g.frame");
-// @unit C01.ser_str.o props=C01,C02 kind=bounded bound=ASCII,L<=4 tier=thorough fn=<&mut.zvariant::dbus::Serializer.as.serde::Serializer>::serialize_str timeout=900
+// @unit C01.ser_str.o props=C01,C02 kind=bounded bound=ASCII,L<=4 tier=thorough fn=<&mut.zvariant::dbus::Serializer.as.serde::Serializer>::serialize_str timeout=1800
 #[cfg(not(verif_skip_c01_ser_str_o__l4))]
 ser_str_unit!(c01_ser_str_o__l4, 4, &SIG_O, 4, "C01.ser_str.o.ok", "C01.ser_str.o.advance", "C01.ser_str.o.padding_zero",
     "C01.ser_str.o.length_prefix", "C01.ser_str.o.content", "C01.ser_str.o.nul_terminator", "C01.ser_str.o.frame");
@@ -372,15 +372,15 @@ macro_rules! ser_seq_unit {
         }
     };
 }
-// @unit C01.ser_seq.at props=C02,C01,C07 kind=complete fn=<&mut.zvariant::dbus::Serializer.as.serde::Serializer>::serialize_seq timeout=900
+// @unit C01.ser_seq.at props=C02,C01,C07 kind=complete fn=<&mut.zvariant::dbus::Serializer.as.serde::Serializer>::serialize_seq timeout=1800
 #[cfg(not(verif_skip_c01_ser_seq_at__complete))]
 ser_seq_unit!(c01_ser_seq_at__complete, &SIG_AT, &SIG_T, 8, "C01.ser_seq.at.ok_iff_depth_within_limits", "C01.ser_seq.at.header_bytes_zero",
     "C01.ser_seq.at.start_and_first_padding", "C01.ser_seq.at.signature_switch", "C01.ser_seq.at.depth_incremented", "C01.ser_seq.at.frame");
-// @unit C01.ser_seq.au props=C02,C01,C07 kind=complete fn=<&mut.zvariant::dbus::Serializer.as.serde::Serializer>::serialize_seq timeout=900
+// @unit C01.ser_seq.au props=C02,C01,C07 kind=complete fn=<&mut.zvariant::dbus::Serializer.as.serde::Serializer>::serialize_seq timeout=1800
 #[cfg(not(verif_skip_c01_ser_seq_au__complete))]
 ser_seq_unit!(c01_ser_seq_au__complete, &SIG_AU, &SIG_U, 4, "C01.ser_seq.au.ok_iff_depth_within_limits", "C01.ser_seq.au.header_bytes_zero",
     "C01.ser_seq.au.start_and_first_padding", "C01.ser_seq.au.signature_switch", "C01.ser_seq.au.depth_incremented", "C01.ser_seq.au.frame");
-// @unit C01.ser_seq.dict props=C02,C01,C07 kind=complete fn=<&mut.zvariant::dbus::Serializer.as.serde::Serializer>::serialize_seq timeout=900
+// @unit C01.ser_seq.dict props=C02,C01,C07 kind=complete fn=<&mut.zvariant::dbus::Serializer.as.serde::Serializer>::serialize_seq timeout=1800
 #[cfg(not(verif_skip_c01_ser_seq_dict__complete))]
 ser_seq_unit!(c01_ser_seq_dict__complete, &SIG_DICT_IH, &SIG_I, 8, "C01.ser_seq.dict.ok_iff_depth_within_limits", "C01.ser_seq.dict.header_bytes_zero",
     "C01.ser_seq.dict.start_and_first_padding", "C01.ser_seq.dict.signature_switch", "C01.ser_seq.dict.depth_incremented", "C01.ser_seq.dict.frame");
@@ -393,7 +393,7 @@ ser_seq_unit!(c01_ser_seq_dict__complete, &SIG_DICT_IH, &SIG_I, 8, "C01.ser_seq.
 // ensures  Ok(()); length slot := alen (EXCLUDING first_padding) in the context's byte order, at
 //          wpos - alen - first_padding - 4; every other byte unchanged; writer position restored;
 //          array depth - 1; signature restored to the array's
-// @unit C01.end_seq props=C02,C01,C07 kind=complete fn=zvariant::dbus::ser::SeqSerializer::end_seq timeout=900
+// @unit C01.end_seq props=C02,C01,C07 kind=complete fn=zvariant::dbus::ser::SeqSerializer::end_seq timeout=1800
 #[cfg(not(verif_skip_c01_end_seq__complete))]
 #[cfg(kani)]
 #[kani::proof]
@@ -490,12 +490,12 @@ macro_rules! struct_open_unit {
         }
     };
 }
-// @unit C07.struct_ser.variant props=C02,C07,C01 kind=complete fn=zvariant::dbus::ser::StructSerializer::variant,zvariant::dbus::ser::StructSerializer::end_struct timeout=600
+// @unit C07.struct_ser.variant props=C02,C07,C01 kind=complete fn=zvariant::dbus::ser::StructSerializer::variant,zvariant::dbus::ser::StructSerializer::end_struct timeout=1200
 #[cfg(not(verif_skip_c07_struct_ser_variant__complete))]
 struct_open_unit!(c07_struct_ser_variant__complete, variant, &SIG_V, 0, 1,
     "C07.struct_ser.variant.ok_iff_within_limits", "C07.struct_ser.variant.depth_incremented", "C07.struct_ser.variant.saved_depth_is_original",
     "C07.struct_ser.variant.end_struct_restores_original_depth", "C07.struct_ser.variant.writes_nothing");
-// @unit C07.struct_ser.structure props=C02,C07,C01 kind=complete fn=zvariant::dbus::ser::StructSerializer::structure,zvariant::dbus::ser::StructSerializer::end_struct timeout=600
+// @unit C07.struct_ser.structure props=C02,C07,C01 kind=complete fn=zvariant::dbus::ser::StructSerializer::structure,zvariant::dbus::ser::StructSerializer::end_struct timeout=1200
 #[cfg(not(verif_skip_c07_struct_ser_structure__complete))]
 struct_open_unit!(c07_struct_ser_structure__complete, structure, &SIG_STRUCT_YT, 1, 0,
     "C07.struct_ser.structure.ok_iff_within_limits", "C07.struct_ser.structure.depth_incremented", "C07.struct_ser.structure.saved_depth_is_original",
@@ -523,7 +523,7 @@ impl<'p> Serialize for PeekSer<'p> {
     }
 }
 
-// @unit C01.struct_element props=C02,C01,C07 kind=instance bound=struct=(yt),probe-field fn=zvariant::dbus::ser::StructSerializer::serialize_struct_element timeout=900
+// @unit C01.struct_element props=C02,C01,C07 kind=instance bound=struct=(yt),probe-field fn=zvariant::dbus::ser::StructSerializer::serialize_struct_element timeout=1800
 #[cfg(not(verif_skip_c01_struct_element__yt))]
 #[cfg(kani)]
 #[kani::proof]
@@ -588,7 +588,7 @@ fn c01_struct_element__yt() {
 //         serialize_value: the value encoded UNDER THE VALUE SIGNATURE (i32 under `h` = index of a new fd: the number
 //                          attached grows by one and the index is written); afterwards signature = key signature again
 // The probe value records the nested serializer state it is handed (see PeekSer above).
-// @unit C01.map_key props=C01,C02 kind=complete fn=<zvariant::dbus::ser::MapSerializer.as.serde::ser::SerializeMap>::serialize_key timeout=900
+// @unit C01.map_key props=C01,C02 kind=complete fn=<zvariant::dbus::ser::MapSerializer.as.serde::ser::SerializeMap>::serialize_key timeout=1800
 #[cfg(not(verif_skip_c01_map_key__complete))]
 #[cfg(kani)]
 #[kani::proof]
@@ -642,7 +642,7 @@ fn c01_map_key__complete() {
     kani::cover!(p == 0, "cover.pad0");
 }
 
-// @unit C01.map_value props=C01,C02 kind=complete fn=<zvariant::dbus::ser::MapSerializer.as.serde::ser::SerializeMap>::serialize_value timeout=900
+// @unit C01.map_value props=C01,C02 kind=complete fn=<zvariant::dbus::ser::MapSerializer.as.serde::ser::SerializeMap>::serialize_value timeout=1800
 #[cfg(not(verif_skip_c01_map_value__complete))]
 #[cfg(kani)]
 #[kani::proof]
@@ -725,16 +725,16 @@ macro_rules! size_unit {
         }
     };
 }
-// @unit C01.serialized_size.u32 props=C01 kind=complete fn=zvariant::ser::serialized_size,<zvariant::ser::NullWriteSeek.as.std::io::Write>::write timeout=900
+// @unit C01.serialized_size.u32 props=C01 kind=complete fn=zvariant::ser::serialized_size,<zvariant::ser::NullWriteSeek.as.std::io::Write>::write timeout=1800
 #[cfg(not(verif_skip_c01_serialized_size_u32__complete))]
 size_unit!(c01_serialized_size_u32__complete, u32, b'u', "C01.serialized_size.u32.ok", "C01.serialized_size.u32.equals_bytes_written_incl_padding");
-// @unit C01.serialized_size.u64 props=C01 kind=complete tier=thorough fn=zvariant::ser::serialized_size timeout=900
+// @unit C01.serialized_size.u64 props=C01 kind=complete tier=thorough fn=zvariant::ser::serialized_size timeout=1800
 #[cfg(not(verif_skip_c01_serialized_size_u64__complete))]
 size_unit!(c01_serialized_size_u64__complete, u64, b't', "C01.serialized_size.u64.ok", "C01.serialized_size.u64.equals_bytes_written_incl_padding");
-// @unit C01.serialized_size.bool props=C01 kind=complete fn=zvariant::ser::serialized_size timeout=900
+// @unit C01.serialized_size.bool props=C01 kind=complete fn=zvariant::ser::serialized_size timeout=1800
 #[cfg(not(verif_skip_c01_serialized_size_bool__complete))]
 size_unit!(c01_serialized_size_bool__complete, bool, b'b', "C01.serialized_size.bool.ok", "C01.serialized_size.bool.equals_bytes_written_incl_padding");
-// @unit C01.serialized_size.u8 props=C01 kind=complete tier=thorough fn=zvariant::ser::serialized_size timeout=900
+// @unit C01.serialized_size.u8 props=C01 kind=complete tier=thorough fn=zvariant::ser::serialized_size timeout=1800
 #[cfg(not(verif_skip_c01_serialized_size_u8__complete))]
 size_unit!(c01_serialized_size_u8__complete, u8, b'y', "C01.serialized_size.u8.ok", "C01.serialized_size.u8.equals_bytes_written_incl_padding");
 
@@ -841,39 +841,39 @@ macro_rules! rt_fixed_unit {
         }
     };
 }
-// @unit C02.rt_u8 props=C02 kind=complete fn=<&mut.zvariant::dbus::Serializer.as.serde::Serializer>::serialize_u8,<&mut.zvariant::dbus::Deserializer.as.serde::Deserializer>::deserialize_u8 stubs=C03.parse_padding timeout=900
+// @unit C02.rt_u8 props=C02 kind=complete fn=<&mut.zvariant::dbus::Serializer.as.serde::Serializer>::serialize_u8,<&mut.zvariant::dbus::Deserializer.as.serde::Deserializer>::deserialize_u8 stubs=C03.parse_padding timeout=1800
 #[cfg(not(verif_skip_c02_rt_u8__complete))]
 rt_fixed_unit!(c02_rt_u8__complete, u8, &SIG_Y, serialize_u8, "C02.rt_u8.decodes", "C02.rt_u8.value_equal", "C02.rt_u8.consumed_equals_written");
-// @unit C02.rt_bool props=C02 kind=complete fn=<&mut.zvariant::dbus::Serializer.as.serde::Serializer>::serialize_bool,<&mut.zvariant::dbus::Deserializer.as.serde::Deserializer>::deserialize_bool stubs=C03.parse_padding timeout=900
+// @unit C02.rt_bool props=C02 kind=complete fn=<&mut.zvariant::dbus::Serializer.as.serde::Serializer>::serialize_bool,<&mut.zvariant::dbus::Deserializer.as.serde::Deserializer>::deserialize_bool stubs=C03.parse_padding timeout=1800
 #[cfg(not(verif_skip_c02_rt_bool__complete))]
 rt_fixed_unit!(c02_rt_bool__complete, bool, <bool as Type>::SIGNATURE, serialize_bool, "C02.rt_bool.decodes", "C02.rt_bool.value_equal", "C02.rt_bool.consumed_equals_written");
-// @unit C02.rt_i16 props=C02 kind=complete fn=<&mut.zvariant::dbus::Serializer.as.serde::Serializer>::serialize_i16,<&mut.zvariant::dbus::Deserializer.as.serde::Deserializer>::deserialize_i16 stubs=C03.parse_padding timeout=900
+// @unit C02.rt_i16 props=C02 kind=complete fn=<&mut.zvariant::dbus::Serializer.as.serde::Serializer>::serialize_i16,<&mut.zvariant::dbus::Deserializer.as.serde::Deserializer>::deserialize_i16 stubs=C03.parse_padding timeout=1800
 #[cfg(not(verif_skip_c02_rt_i16__complete))]
 rt_fixed_unit!(c02_rt_i16__complete, i16, <i16 as Type>::SIGNATURE, serialize_i16, "C02.rt_i16.decodes", "C02.rt_i16.value_equal", "C02.rt_i16.consumed_equals_written");
-// @unit C02.rt_u16 props=C02 kind=complete fn=<&mut.zvariant::dbus::Serializer.as.serde::Serializer>::serialize_u16,<&mut.zvariant::dbus::Deserializer.as.serde::Deserializer>::deserialize_u16 stubs=C03.parse_padding timeout=900
+// @unit C02.rt_u16 props=C02 kind=complete fn=<&mut.zvariant::dbus::Serializer.as.serde::Serializer>::serialize_u16,<&mut.zvariant::dbus::Deserializer.as.serde::Deserializer>::deserialize_u16 stubs=C03.parse_padding timeout=1800
 #[cfg(not(verif_skip_c02_rt_u16__complete))]
 rt_fixed_unit!(c02_rt_u16__complete, u16, <u16 as Type>::SIGNATURE, serialize_u16, "C02.rt_u16.decodes", "C02.rt_u16.value_equal", "C02.rt_u16.consumed_equals_written");
-// @unit C02.rt_i32 props=C02 kind=complete fn=<&mut.zvariant::dbus::Serializer.as.serde::Serializer>::serialize_i32,<&mut.zvariant::dbus::Deserializer.as.serde::Deserializer>::deserialize_i32 stubs=C03.parse_padding timeout=900
+// @unit C02.rt_i32 props=C02 kind=complete fn=<&mut.zvariant::dbus::Serializer.as.serde::Serializer>::serialize_i32,<&mut.zvariant::dbus::Deserializer.as.serde::Deserializer>::deserialize_i32 stubs=C03.parse_padding timeout=1800
 #[cfg(not(verif_skip_c02_rt_i32__complete))]
 rt_fixed_unit!(c02_rt_i32__complete, i32, &SIG_I, serialize_i32, "C02.rt_i32.decodes", "C02.rt_i32.value_equal", "C02.rt_i32.consumed_equals_written");
-// @unit C02.rt_u32 props=C02 kind=complete fn=<&mut.zvariant::dbus::Serializer.as.serde::Serializer>::serialize_u32,<&mut.zvariant::dbus::Deserializer.as.serde::Deserializer>::deserialize_u32 stubs=C03.parse_padding timeout=900
+// @unit C02.rt_u32 props=C02 kind=complete fn=<&mut.zvariant::dbus::Serializer.as.serde::Serializer>::serialize_u32,<&mut.zvariant::dbus::Deserializer.as.serde::Deserializer>::deserialize_u32 stubs=C03.parse_padding timeout=1800
 #[cfg(not(verif_skip_c02_rt_u32__complete))]
 rt_fixed_unit!(c02_rt_u32__complete, u32, &SIG_U, serialize_u32, "C02.rt_u32.decodes", "C02.rt_u32.value_equal", "C02.rt_u32.consumed_equals_written");
-// @unit C02.rt_i64 props=C02 kind=complete fn=<&mut.zvariant::dbus::Serializer.as.serde::Serializer>::serialize_i64,<&mut.zvariant::dbus::Deserializer.as.serde::Deserializer>::deserialize_i64 stubs=C03.parse_padding timeout=900
+// @unit C02.rt_i64 props=C02 kind=complete fn=<&mut.zvariant::dbus::Serializer.as.serde::Serializer>::serialize_i64,<&mut.zvariant::dbus::Deserializer.as.serde::Deserializer>::deserialize_i64 stubs=C03.parse_padding timeout=1800
 #[cfg(not(verif_skip_c02_rt_i64__complete))]
 rt_fixed_unit!(c02_rt_i64__complete, i64, <i64 as Type>::SIGNATURE, serialize_i64, "C02.rt_i64.decodes", "C02.rt_i64.value_equal", "C02.rt_i64.consumed_equals_written");
-// @unit C02.rt_u64 props=C02 kind=complete fn=<&mut.zvariant::dbus::Serializer.as.serde::Serializer>::serialize_u64,<&mut.zvariant::dbus::Deserializer.as.serde::Deserializer>::deserialize_u64 stubs=C03.parse_padding timeout=900
+// @unit C02.rt_u64 props=C02 kind=complete fn=<&mut.zvariant::dbus::Serializer.as.serde::Serializer>::serialize_u64,<&mut.zvariant::dbus::Deserializer.as.serde::Deserializer>::deserialize_u64 stubs=C03.parse_padding timeout=1800
 #[cfg(not(verif_skip_c02_rt_u64__complete))]
 rt_fixed_unit!(c02_rt_u64__complete, u64, &SIG_T, serialize_u64, "C02.rt_u64.decodes", "C02.rt_u64.value_equal", "C02.rt_u64.consumed_equals_written");
-// @unit C02.rt_f64 props=C02 kind=complete fn=<&mut.zvariant::dbus::Serializer.as.serde::Serializer>::serialize_f64,<&mut.zvariant::dbus::Deserializer.as.serde::Deserializer>::deserialize_f64 stubs=C03.parse_padding timeout=900
+// @unit C02.rt_f64 props=C02 kind=complete fn=<&mut.zvariant::dbus::Serializer.as.serde::Serializer>::serialize_f64,<&mut.zvariant::dbus::Deserializer.as.serde::Deserializer>::deserialize_f64 stubs=C03.parse_padding timeout=1800
 #[cfg(not(verif_skip_c02_rt_f64__complete))]
 rt_fixed_unit!(c02_rt_f64__complete, f64, <f64 as Type>::SIGNATURE, serialize_f64, "C02.rt_f64.decodes", "C02.rt_f64.value_equal_bitwise_incl_nan", "C02.rt_f64.consumed_equals_written");
 
 // i8 and f32 have no D-Bus type: zvariant widens them to INT16 / DOUBLE on the wire and narrows on the way back
-// @unit C02.rt_i8 props=C02 kind=complete fn=<&mut.zvariant::dbus::Serializer.as.serde::Serializer>::serialize_i8,<&mut.zvariant::dbus::Deserializer.as.serde::Deserializer>::deserialize_i8 stubs=C03.parse_padding timeout=900
+// @unit C02.rt_i8 props=C02 kind=complete fn=<&mut.zvariant::dbus::Serializer.as.serde::Serializer>::serialize_i8,<&mut.zvariant::dbus::Deserializer.as.serde::Deserializer>::deserialize_i8 stubs=C03.parse_padding timeout=1800
 #[cfg(not(verif_skip_c02_rt_i8__complete))]
 rt_fixed_unit!(c02_rt_i8__complete, i8, <i8 as Type>::SIGNATURE, serialize_i8, "C02.rt_i8.decodes", "C02.rt_i8.value_equal", "C02.rt_i8.consumed_equals_written");
-// @unit C02.rt_f32 props=C02 kind=complete fn=<&mut.zvariant::dbus::Serializer.as.serde::Serializer>::serialize_f32,<&mut.zvariant::dbus::Deserializer.as.serde::Deserializer>::deserialize_f32 stubs=C03.parse_padding timeout=900
+// @unit C02.rt_f32 props=C02 kind=complete fn=<&mut.zvariant::dbus::Serializer.as.serde::Serializer>::serialize_f32,<&mut.zvariant::dbus::Deserializer.as.serde::Deserializer>::deserialize_f32 stubs=C03.parse_padding timeout=1800
 #[cfg(not(verif_skip_c02_rt_f32__complete))]
 rt_fixed_unit!(c02_rt_f32__complete, f32, <f32 as Type>::SIGNATURE, serialize_f32, "C02.rt_f32.decodes", "C02.rt_f32.value_equal", "C02.rt_f32.consumed_equals_written");
 
